@@ -173,6 +173,11 @@ def chainStep (d : Drv) (line : String) : Drv × String :=
       ({ d with node := r.1 }, if r.2 then "ok" else "err committed")
     | none => bad
   | ["state"] => (d, showState d.node.cfg.registry d.node.chain)
+  -- `validator_registry().remove(node_id)` / `register_validator(identity())` on the node's own key
+  | ["unreg"] =>
+    let r := unregisterSelf d.node
+    ({ d with node := r.1 }, if r.2 then "removed" else "absent")
+  | ["rereg"] => ({ d with node := registerSelf d.node }, "ok")
   | ["sched", ws, ts, sch] => match parseNats ws, ts.toNat?, parseNats sch with
     | some ws, some ts, some sch =>
       let ls := ws.map fun w => Local.init w ts
